@@ -1,4 +1,4 @@
-"""./check <ID> [--tier quick|thorough] [--replay <path>]"""
+"""./check <ID> [--tier quick|thorough] [--replay <path>]   |   ./check selftest   |   ./check seeds [--only C03,C09]"""
 from __future__ import annotations
 
 import argparse
@@ -12,6 +12,7 @@ def main() -> int:
     ap.add_argument("pid")
     ap.add_argument("--tier", choices=["quick", "thorough"])
     ap.add_argument("--replay")
+    ap.add_argument("--only")
     a = ap.parse_args()
     if a.tier:
         os.environ["VERIF_TIER"] = a.tier
@@ -22,6 +23,10 @@ def main() -> int:
             from . import selftest  # noqa: PLC0415
 
             return selftest.run()
+        if a.pid == "seeds":
+            from . import seedsuite  # noqa: PLC0415
+
+            return seedsuite.run(a.only.split(",") if a.only else None)
         if a.replay:
             from . import replay  # noqa: PLC0415
 
